@@ -1,6 +1,6 @@
 import Cppcms.C03.ConnWriteLemmas
 import Cppcms.C03.FramingLemmas
-import Cppcms.C03.BuffersLemmas
+import Cppcms.C03.DeviceLemmas
 import Cppcms.C03.ChainLemmas
 /-!
 # C03 — the client receives exactly the bytes the application wrote, once and in order
@@ -123,45 +123,83 @@ example (data : Bytes) (h : data.length = 70000) :
 /-! ## 3. the stream-buffer chain -/
 
 /-- **device_conservation.**  For either device (`output_device`, `async_io_buf` with full or
-partial buffering), any initial buffer size and every sequence of `sputn` / `sputc` / `pubsync` /
-`flush_async_chunk` / `setbuf m` / `full_asynchronous_buffering b` (over a connection that accepts
-its writes): bytes passed to `connection::write` so far ++ buffered bytes = bytes written by the layer above,
-and no eof has been announced.  After `close()`: nothing is buffered, everything has been passed on, and
-eof was sent exactly once — with the last write.  The `flush_async_chunk` that `async_write_response` adds
-after `finalize()` sends no second eof. -/
-theorem device_conservation (isAsync full : Bool) (n : Nat) (ops : List DevOp) :
-    let d0 := ({ isAsync := isAsync, fullBuffering := full } : Dev).open n
-    let r := Dev.run (d0, []) ops
+partial buffering), in every io mode (`raw` = the raw modes, where the device first takes the
+application's own CGI header block out of the stream), any initial buffer size and every sequence of
+`sputn` / `sputc` / `pubsync` / `flush_async_chunk` / `setbuf m` / `full_asynchronous_buffering b`
+(over a connection that accepts its writes): after `close()` nothing is buffered, the bytes passed to
+`connection::write` are exactly the bytes written by the layer above (`filterOf raw` = identity outside
+the raw modes), no eof was announced before, and eof is announced exactly once — with the last write.
+The `flush_async_chunk` that `async_write_response` adds after `finalize()` sends no byte and no second eof. -/
+theorem device_conservation (isAsync full raw : Bool) (n : Nat) (ops : List DevOp) :
+    let r := Dev.run (Dev.fresh isAsync full raw n, []) ops
     let c := r.1.close logIf r.2
     let f := c.1.flush logIf c.2
-    Log.bytes r.2 ++ r.1.content = (ops.map DevOp.data).flatten ∧ Log.eofs r.2 = 0 ∧
-    Log.bytes c.2 = (ops.map DevOp.data).flatten ∧ c.1.content = [] ∧ Log.eofs c.2 = 1 ∧
-    (c.2.getLast?.map (·.2)) = some true ∧
-    Log.bytes f.2.1 = (ops.map DevOp.data).flatten ∧ Log.eofs f.2.1 = 1 := by
-  intro d0 r c f
-  have ⟨hi0, hq0⟩ := Dev.open_inv isAsync full n
-  have ⟨hi, hq⟩ := Dev.run_inv ops d0 [] [] hi0 hq0
+    Log.eofs r.2 = 0 ∧
+    Log.bytes c.2 = filterOf raw (ops.map DevOp.data).flatten ∧ c.1.content = [] ∧ Log.eofs c.2 = 1 ∧
+    (c.2.getLast?.map (fun (x : Bytes × Bool) => x.2)) = some true ∧
+    Log.bytes f.2.1 = filterOf raw (ops.map DevOp.data).flatten ∧ Log.eofs f.2.1 = 1 := by
+  intro r c f
+  have ⟨hi0, hq0, hm0⟩ := Dev.fresh_inv isAsync full raw n
+  have ⟨hi, hq⟩ := Dev.run_inv ops _ [] [] hi0 hq0
+  have hm := Dev.run_rawMode ops _ [] [] hi0
   simp only [List.nil_append] at hi
   have ⟨c1, c2, c3, c4, c5, c6, c7⟩ := Dev.close_spec r.1 r.2 _ hi hq
   have ⟨f1, f2⟩ := Dev.flush_after_close c.1 c.2 _ c5 c6 c7
-  refine ⟨hi.2.2.2, hq.2.2, c1, c2, c3, ?_, ?_, ?_⟩
-  · show (c.2.getLast?.map (·.2)) = some true
-    rw [c4]; rfl
-  · show Log.bytes f.2.1 = _
-    rw [f1, c1, c2, List.append_nil]
-  · show Log.eofs f.2.1 = 1
-    rw [f2, c3]
+  have hmc : c.1.rawMode = raw := by
+    have := (Dev.flush_inv { r.1 with final := true } r.2 _ hi).2.2.2.2.2.2.2.2.2.2.2
+    have hcl : c.1 = ({ r.1 with final := true }.flush logIf r.2).1 := by
+      show (r.1.close logIf r.2).1 = _
+      unfold Dev.close
+      rw [if_neg (by rw [hq.2.1]; exact Bool.false_ne_true)]
+    rw [hcl, this]
+    show r.1.rawMode = raw
+    rw [hm, hm0]
+  rw [hm, hm0] at c1
+  rw [hmc] at f1
+  exact ⟨hq.2.2, c1, c2, c3, c4, f1, by rw [f2, c3]⟩
+
+/-- written ++ buffered = input at every moment (outside the raw modes) -/
+theorem device_conservation_running (isAsync full : Bool) (n : Nat) (ops : List DevOp) :
+    let r := Dev.run (Dev.fresh isAsync full false n, []) ops
+    Log.bytes r.2 ++ r.1.content = (ops.map DevOp.data).flatten := by
+  intro r
+  have ⟨hi0, hq0, hm0⟩ := Dev.fresh_inv isAsync full false n
+  have ⟨hi, _⟩ := Dev.run_inv ops _ [] [] hi0 hq0
+  have hm := Dev.run_rawMode ops _ [] [] hi0
+  simp only [List.nil_append] at hi
+  obtain ⟨fed, _, _, h3, h4, _⟩ := hi
+  rw [hm, hm0] at h4
+  simp only [filterOf, Bool.false_eq_true, if_false] at h4
+  unfold Dev.content
+  rw [h4]; exact h3
+
+/-- **raw modes**: of a stream that starts with a CGI header block given line by line (lines not
+empty, no CR inside) the device passes on exactly what follows the block, and the block's lines reach
+`set_response_headers` through `add_header`, in order — however the stream is cut into writes
+(`device_conservation` quantifies over the cuts). -/
+theorem raw_header_block_stripped (ls : List Bytes) (hok : ∀ l ∈ ls, l ≠ [] ∧ ∀ c ∈ l, c ≠ 13) (body : Bytes) :
+    filterOf true ((ls.map (· ++ [13, 10])).flatten ++ 13 :: 10 :: body) = body ∧
+    (({} : RawParser).consume ((ls.map (· ++ [13, 10])).flatten ++ 13 :: 10 :: body)).2.2 = some (ls.foldl rawAddHeader {}) := by
+  have := consume_block ls {} body rfl rfl hok
+  exact ⟨this.1, this.2.2⟩
 
 /-- non-vacuity / illustration: unbuffered device, a write larger than the buffer, a put, a setbuf that forces a flush -/
-example : (Dev.run (({} : Dev).open 2, []) [.put [1,2,3], .putc 4, .putc 5, .setbuf 1, .put [6]]).2 = [([1,2,3], false), ([4,5], false)]
-    ∧ (Dev.run (({} : Dev).open 2, []) [.put [1,2,3], .putc 4, .putc 5, .setbuf 1, .put [6]]).1.content = [6] := by
+example : (Dev.run (Dev.fresh false true false 2, []) [.put [1,2,3], .putc 4, .putc 5, .setbuf 1, .put [6]]).2 = [([1,2,3], false), ([4,5], false)]
+    ∧ (Dev.run (Dev.fresh false true false 2, []) [.put [1,2,3], .putc 4, .putc 5, .setbuf 1, .put [6]]).1.content = [6] := by
+  decide
+
+/-- raw mode illustration: `A: b CRLF CRLF xy` written in two pieces that cut the header block -/
+example : Log.bytes ((Dev.run (Dev.fresh false true true 0, []) [.put [65, 58, 32, 98, 13], .put [10, 13, 10, 120, 121]]).1.close logIf
+    (Dev.run (Dev.fresh false true true 0, []) [.put [65, 58, 32, 98, 13], .put [10, 13, 10, 120, 121]]).2).2 = [120, 121] := by
   decide
 
 /-- the eof bookkeeping of `basic_device::write` (`eof_send_ = send_eof`) toggles: a third flush after
 `close(); flush()` would announce eof again.  `http::context` never does that (one `finalize`, at most one
-`flush_async_chunk` after it), which is what `device_conservation` covers. -/
+`flush_async_chunk` after it), which is what `device_conservation` covers; an application calling
+`response().finalize()` itself and then `async_flush_output` does reach it (reproduced on the real code,
+see design.d/C03.md). -/
 theorem eof_flag_toggles_counterexample :
-    let d0 := ({ isAsync := true } : Dev).open 4
+    let d0 := Dev.fresh true true false 4
     let c := d0.close logIf []
     let f1 := c.1.flush logIf c.2
     let f2 := f1.1.flush logIf f1.2.1
@@ -312,15 +350,15 @@ example : HeadOk [67,111,110,116,101,110,116,45,84,121,112,101,58,32,116,101,120
 size, every sequence of device operations followed by `close()`, and **every** disciplined trace of
 connection events that was handed the formatted outputs and ended drained without a hard error — whatever
 prefixes the socket accepted and however often it reported would-block — the bytes on the wire decode, with
-the independent de-framer, to exactly one head and a body equal to the bytes written to the device. -/
-theorem client_sees_app_bytes (F : Framing) (isAsync full : Bool) (n : Nat) (ops : List DevOp)
-    (hlen : F.lengthOk ((ops.map DevOp.data).flatten).length)
+the independent de-framer, to exactly one head and a body equal to the bytes written to the device
+(`filterOf raw`: in the raw modes, the bytes after the application's own header block). -/
+theorem client_sees_app_bytes (F : Framing) (isAsync full raw : Bool) (n : Nat) (ops : List DevOp)
+    (hlen : F.lengthOk (filterOf raw (ops.map DevOp.data).flatten).length)
     (evs : List Ev) (hd : disciplined {} evs = true) (hb : (runEvs {} evs).broken = false) (hdr : (runEvs {} evs).backlog = [])
     (hh : (evs.map Ev.data).flatten =
-      (F.run ((Dev.run (({ isAsync := isAsync, fullBuffering := full } : Dev).open n, []) ops).1.close logIf
-               (Dev.run (({ isAsync := isAsync, fullBuffering := full } : Dev).open n, []) ops).2).2).1) :
-    ∃ head, F.deframe (runEvs {} evs).wire = some (head, (ops.map DevOp.data).flatten) :=
-  chain_device F isAsync full n ops hlen evs hd hb hdr hh
+      (F.run ((Dev.run (Dev.fresh isAsync full raw n, []) ops).1.close logIf (Dev.run (Dev.fresh isAsync full raw n, []) ops).2).2).1) :
+    ∃ head, F.deframe (runEvs {} evs).wire = some (head, filterOf raw (ops.map DevOp.data).flatten) :=
+  chain_device F isAsync full raw n ops hlen evs hd hb hdr hh
 
 /-- **client_sees_app_bytes, compressed and cached page.**  The full chain application → `gzip_buf` →
 `copy_buf` → device → framing → connection, for any deflater with an `inflate` that inverts it on
@@ -334,7 +372,7 @@ theorem client_sees_app_bytes_gzip_cached (F : Framing) (D : Deflater) (gzBuf : 
     let acts1 := g.2 ++ g.1.close.2
     let k := Copy.run ({}, []) (acts1.map Act.toBufOp)
     let acts2 := k.2 ++ k.1.close.2
-    let d := Dev.run (({ isAsync := isAsync, fullBuffering := full } : Dev).open n, []) (acts2.map Act.toDevOp)
+    let d := Dev.run (Dev.fresh isAsync full false n, []) (acts2.map Act.toDevOp)
     F.lengthOk (actBytes acts1).length →
     ∀ evs, disciplined {} evs = true → (runEvs {} evs).broken = false → (runEvs {} evs).backlog = [] →
       (evs.map Ev.data).flatten = (F.run (d.1.close logIf d.2).2).1 →
